@@ -6,7 +6,7 @@ CONSTANTS
   MaxReads = 0
   OccSet = {TRUE}
   BatchSet = {2}
-  PathSet = {"async", "sync"}
+  PathSet = {"async"}
   MaxPauses = 0
   MaxRestarts = 0
   Kinds = {"waive", "stale", "equal", "future"}
